@@ -1120,7 +1120,7 @@ class PSBT(EmbitBase):
 
             # check if root itself is included in the script
             if sec in sc.data or pkh in sc.data:
-                sig = root.sign(h)
+                sig = (root.key if hasattr(root, "origin") else root).sign(h)
                 # sig plus sighash flag
                 inp.partial_sigs[rootpub] = sig.serialize() + bytes([inp_sighash])
                 counter += 1
